@@ -173,4 +173,60 @@ mod verif_nx_lex {
         assert!(n > 800_000, "enumeration ran");
     }
 
+
+    fn is_blank_char(c: char) -> bool { c <= '\u{20}' || c == '\u{3000}' }
+
+    // C13 first sentence, as a bounded stand-in for what the Verus unit `lexloop` has to assume about
+    // count_leading_whitespace / count_unicode_whitespace (iterator adapters, kept as a stub there) and as the
+    // executable partner of the whole-loop proof: every short text over an alphabet of blank and non-blank
+    // characters (ASCII blanks, CR, LF, U+3000, U+00A0, a 2-byte and a 3-byte letter, openers, operators).
+    #[test]
+    fn verif_nx_lex_tokspec_small() {
+        const ITEMS: [&str; 26] = ["a", "Z", "1", "_", " ", "\t", "\n", "\r", "\u{3000}", "\u{a0}", "\u{e9}", "\u{4e2d}", ".", ":", "=", "'", "\"", "{", "}", "(", "*", ")", "/", "$", "#", "\u{0}"];
+        let max_len: usize = if std::env::var("VERIF_NX_THOROUGH").is_ok() { 5 } else { 4 };
+        let mut n = 0u64;
+        let mut blank_after_wide = 0u64;
+        let mut idx = vec![0usize; 0];
+        for len in 0..=max_len {
+            idx.clear();
+            idx.resize(len, 0);
+            loop {
+                let mut text = String::new();
+                for &i in &idx { text.push_str(ITEMS[i]); }
+                let t2 = text.clone();
+                let toks = match std::panic::catch_unwind(move || {
+                    lex_complete(&t2).iter().map(|t| (t.get_leading_whitespace().to_owned(), t.get_content().to_owned(), t.get_token_type())).collect::<Vec<_>>()
+                }) {
+                    Ok(t) => t,
+                    Err(_) => panic!("OB lexnx/tokspec_returns: scanning never aborts\n input={:?}", text),
+                };
+                n += 1;
+                if text.contains("\u{3000} ") || text.contains("\u{3000}\t") { blank_after_wide += 1; }
+                let cat: String = toks.iter().map(|t| format!("{}{}", t.0, t.1)).collect();
+                assert!(cat == text, "OB lexnx/tokspec_lossless: leading blanks and contents concatenate back to exactly the input\n input={:?} got={:?}", text, cat);
+                let eofs = toks.iter().filter(|t| t.2 == TT::Eof).count();
+                assert!(eofs == 1 && toks.last().map(|t| t.2) == Some(TT::Eof), "OB lexnx/tokspec_one_eof_last: exactly one end-of-file token, last\n input={:?} kinds={:?}", text, toks.iter().map(|t| t.2).collect::<Vec<_>>());
+                for t in &toks {
+                    assert!(t.0.chars().all(is_blank_char), "OB lexnx/tokspec_leading_blanks: the leading part of a token consists of blanks only\n input={:?} token={:?}", text, t);
+                    if t.2 != TT::Eof {
+                        assert!(!t.1.is_empty() && !is_blank_char(t.1.chars().next().unwrap()), "OB lexnx/tokspec_content_nonblank: every other token has non-empty content that starts at a non-blank character\n input={:?} token={:?}", text, t);
+                    } else {
+                        assert!(t.1.is_empty(), "OB lexnx/tokspec_eof_empty: the end-of-file token has no content (trailing blanks are its leading part)\n input={:?} token={:?}", text, t);
+                    }
+                }
+                // next index vector
+                let mut k = len;
+                let mut done = true;
+                while k > 0 {
+                    k -= 1;
+                    idx[k] += 1;
+                    if idx[k] < ITEMS.len() { done = false; break; }
+                    idx[k] = 0;
+                }
+                if done { break; }
+            }
+        }
+        assert!(n > 400_000 && blank_after_wide > 1000, "vacuity guard: {} texts, {} with a blank after U+3000", n, blank_after_wide);
+        println!("NX verif_nx_lex_tokspec_small: {} cases", n);
+    }
 }
